@@ -209,6 +209,23 @@ func upperOperand(f Fact, v ssa.Value) ssa.Value {
 }
 
 func provedLE(v ssa.Value, bound string, fs []Fact, depth int, seen map[ssa.Value]bool) bool {
+	return provedLEA(v, bound, fs, depth, seen, nil)
+}
+
+func contradictsAny(fs []Fact, assume []Atom) bool {
+	for _, a := range assume {
+		for _, f := range fs {
+			if SameAtom(f.Atom, a.Negate()) {
+				return true
+			}
+		}
+	}
+	return false
+}
+
+// provedLEA is provedLE under assumptions: merge edges whose branch facts
+// contradict an assumed atom are not taken.
+func provedLEA(v ssa.Value, bound string, fs []Fact, depth int, seen map[ssa.Value]bool, assume []Atom) bool {
 	if depth > 8 {
 		return false
 	}
@@ -225,7 +242,7 @@ func provedLE(v ssa.Value, bound string, fs []Fact, depth int, seen map[ssa.Valu
 	if call, isCall := v.(*ssa.Call); isCall {
 		if bi, isB := call.Call.Value.(*ssa.Builtin); isB && bi.Name() == "min" {
 			for _, a := range call.Call.Args {
-				if provedLE(a, bound, fs, depth+1, seen) {
+				if provedLEA(a, bound, fs, depth+1, seen, assume) {
 					return true
 				}
 			}
@@ -239,7 +256,7 @@ func provedLE(v ssa.Value, bound string, fs []Fact, depth int, seen map[ssa.Valu
 				return true
 			}
 			// w must itself be bounded where the fact was established
-			if provedLE(w, bound, append(FactsAt(f.If.Block()), fs...), depth+1, seen) {
+			if provedLEA(w, bound, append(FactsAt(f.If.Block()), fs...), depth+1, seen, assume) {
 				return true
 			}
 		}
@@ -247,7 +264,11 @@ func provedLE(v ssa.Value, bound string, fs []Fact, depth int, seen map[ssa.Valu
 	if ph, ok := v.(*ssa.Phi); ok {
 		for i, e := range ph.Edges {
 			pred := ph.Block().Preds[i]
-			if !provedLE(e, bound, edgeFacts_h2server(pred, ph.Block()), depth+1, seen) {
+			ef := edgeFacts_h2server(pred, ph.Block())
+			if contradictsAny(ef, assume) {
+				continue
+			}
+			if !provedLEA(e, bound, ef, depth+1, seen, assume) {
 				return false
 			}
 		}
@@ -271,11 +292,11 @@ func (c *Ctx) ArgLE(fnName string, sel Sel, idx int, bound string) bool {
 	}
 	for _, in := range ins {
 		ci, ok := in.(ssa.CallInstruction)
-		if !ok || idx >= len(ci.Common().Args) {
+		if !ok || idx >= len(BaselineArgs(ci.Common())) {
 			c.Undecided(rule, construct, "site is not a call with that many arguments")
 			return false
 		}
-		a := ci.Common().Args[idx]
+		a := BaselineArgs(ci.Common())[idx]
 		if !provedLE(a, bound, FactsAtInstr(in), 0, map[ssa.Value]bool{}) {
 			c.Fail(rule, construct, InstrPos(in), fmt.Sprintf("argument `%s` is not provably bounded by %s; facts here: {%s}", Term(a), bound, factStrings(FactsAtInstr(in))))
 			return false
@@ -283,6 +304,24 @@ func (c *Ctx) ArgLE(fnName string, sel Sel, idx int, bound string) bool {
 	}
 	c.OK(rule, construct, fmt.Sprintf("%d site(s)", len(ins)))
 	return true
+}
+
+// ValueLEWhen is ValueLE under assumed atoms; vacuous reports that the site
+// itself is unreachable under the assumption.
+func (p *Prog) ValueLEWhen(v ssa.Value, at ssa.Instruction, bound string, assume ...string) (ok, vacuous bool) {
+	var as []Atom
+	for _, s := range assume {
+		a, err := p.ParseAtom(s)
+		if err != nil {
+			return false, false
+		}
+		as = append(as, a)
+	}
+	fs := FactsAtInstr(at)
+	if contradictsAny(fs, as) {
+		return true, true
+	}
+	return provedLEA(v, bound, fs, 0, map[ssa.Value]bool{}, as), false
 }
 
 // ValueLE is ArgLE for an arbitrary value at an instruction.
@@ -324,7 +363,7 @@ func (c *Ctx) RecycledUnreferenced(putCallee string, idx int, dropCallees ...str
 		for _, in := range m[o] {
 			fn := in.Parent()
 			construct := fmt.Sprintf("%s: object passed to %s is dropped by its holder", FnName(fn), putCallee)
-			args := in.(ssa.CallInstruction).Common().Args
+			args := BaselineArgs(in.(ssa.CallInstruction).Common())
 			if idx >= len(args) {
 				c.Undecided(rule, construct, "call has too few arguments")
 				continue
